@@ -24,9 +24,9 @@ SCOPE = {
     "quick": "ALL languages of the family: 2 types (unrelated / T1 extends T0) x one association (T0-T1, T0-T0 reflexive) x "
              "4x4 multiplicity forms (0..1, 1, *, 1..*) x 3 defense menus, and 2 same-named associations x 4 multiplicity "
              "pairs; + 4000 seeded random languages over <=3 types (5 inheritance shapes, defenses Enabled / Disabled / no TTC / Exponential "
-             "declared at any level, 0..3 associations incl. duplicate names, flipped duplicates, reflexive). Per language: "
+             "declared at any level, unrelated types also with SHARED defense names declared differently, 0..3 associations incl. duplicate names, flipped duplicates, reflexive). Per language: "
              "every type instantiated, every defense read / set in and out of [0,1], every (field, asset type) pair tried, "
-             "max+1 assets, repeated asset, duplicate and overlapping link; "
+             "max+1 assets, repeated asset (as the first link of its class and next to a held one), duplicate and overlapping link; "
              "+ SAME-SIGNATURE associations (same name AND same (left, right) types, told apart by their field names only): "
              "ALL of 2 type shapes x 3 type pairs x 6 multiplicity combinations x {alone, + same name flipped / other types, "
              "+ a third of the same signature, + another name}, and 1500 seeded random languages with 1-4 associations where "
@@ -89,6 +89,10 @@ def cases(tier, seed):
             seen.add((name, l, r))
             assocs.append([name, l, r, rnd.randrange(4), rnd.randrange(4)])
         yield {"parents": parents, "defenses": defenses, "assocs": assocs}
+        if all(p is None for p in parents) and n >= 2 and sum(1 for d in defenses if d) >= 2:
+            # unrelated types that use the SAME defense names (guard0, guard1, ...) with their own, different declarations
+            shuffled = [rnd.sample(d, len(d)) for d in defenses]
+            yield {"parents": parents, "defenses": shuffled, "assocs": assocs, "shared_defense_names": True}
     yield from cases_same_signature(tier, seed)
 
 
@@ -137,7 +141,8 @@ def build_spec(recipe):
     assets = []
     for i in range(n):
         steps = [mini.attack_step("s%d" % i, "or")] + \
-                [mini.attack_step("%s%d" % (k, i), "defense", ttc=DEF_KINDS[k]) for k in recipe["defenses"][i]]
+                [mini.attack_step(("guard%d" % q) if recipe.get("shared_defense_names") else ("%s%d" % (k, i)), "defense", ttc=DEF_KINDS[k])
+                 for q, k in enumerate(recipe["defenses"][i])]
         p = recipe["parents"][i]
         assets.append(mini.asset("T%d" % i, sup=None if p is None else "T%d" % p, steps=steps))
     assocs = [mini.assoc(name, "T%d" % l, "f%dl" % j, "T%d" % r, "f%dr" % j, MULTS[lm], MULTS[rm])
@@ -387,6 +392,20 @@ def run_case(recipe):
         a, b = objs[l][0], objs[rr][1]
         s, err = try_fill(cn, j, [a], [b])
         if err is not None: continue
+        # the same asset twice in a field while the model holds NO link of this class yet (the first of its type)
+        if MULTS[lm][1] is None:
+            c0 = objs[l][2]
+            s0, err0 = try_fill(cn, j, [c0, c0], [objs[rr][2] if rr != l else objs[rr][1]])
+            if err0 is None:
+                before0 = snapshot()
+                try:
+                    m.add_association(s0); e0 = None
+                except Exception as e:
+                    e0 = e
+                r.check("C06.no-repeat", isinstance(e0, ModelAssociationException) and snapshot() == before0, FN_V,
+                        "%s link with one asset twice in a field, as the first link of its class: %s" % (cn, "accepted" if e0 is None else L.exc_name(e0)),
+                        "repeat-first:" + ("accepted" if e0 is None else L.exc_name(e0)))
+                if e0 is None: undo(s0)
         before = snapshot()
         try:
             m.add_association(s); e1 = None
